@@ -372,4 +372,6 @@ add("C18", "geoVI prior noise with a literal dtype", "nifty/cl/minimization/kl_e
 add("C18", "likelihood white noise straight from random_like", "nifty/re/evi.py", "    white_sample = _white_noise_like(key, lh.left_sqrt_metric_tangents_shape)", "    white_sample = random_like(key, lh.left_sqrt_metric_tangents_shape)", "R18.11")
 add("C29", "sigma outside the time-axis expansion", "nifty/re/gauss_markov.py", "    res = (sigma * jnp.sqrt(dt))[:, jnp.newaxis] * xi", "    res = sigma * jnp.sqrt(dt)[:, jnp.newaxis] * xi", "R29.6")
 add("C05", "chain grouping key from the first operator alone", "nifty/cl/operator_tree_optimiser.py", "                        write_to_dic(leaf, leaf_op_id)", "                        write_to_dic(leaf, str(id(i)))", "R05.4")
+add("C36", "normalised residual operator remembered on the likelihood", "nifty/cl/operators/energy_operators.py", "        return (self._sqrt_data_metric_at(x) @ self._res).force(x)", "        if getattr(self, \"_nres\", None) is None:\n            self._nres = self._sqrt_data_metric_at(x) @ self._res\n        return self._nres.force(x)", "R36.7")
+add("C36", "prefix operators zipped with all summands", "nifty/cl/operators/energy_operators.py", "                                for pp, oo in zip(prep, data_ops)))", "                                for pp, oo in zip(prep, ops)))", "R36.8")
 VARIANTS = V
